@@ -544,6 +544,48 @@ func TestC12(t *testing.T) {
 		}
 		rec(nil)
 	})
+	// containers nested 1..70 deep (each kind, and mixed), a value and an annotated
+	// value at the bottom, everything closed again: every configuration
+	Enumerate(t, p, "deep-nesting", func(yield func(C12Case) bool) {
+		one := model.Int64V(1)
+		for depth := 1; depth <= 70; depth++ {
+			for _, kind := range []string{"list", "sexp", "struct", "mixed"} {
+				var calls []CallJ
+				var open []string
+				for d := 0; d < depth; d++ {
+					k := kind
+					if k == "mixed" {
+						k = []string{"list", "struct", "sexp"}[d%3]
+					}
+					if len(open) > 0 && open[len(open)-1] == "struct" {
+						calls = append(calls, CallJ{Op: "fieldname", Syms: []model.Sym{model.S("f")}})
+					}
+					calls = append(calls, CallJ{Op: "begin:" + k})
+					open = append(open, k)
+				}
+				if open[len(open)-1] == "struct" {
+					calls = append(calls, CallJ{Op: "fieldname", Syms: []model.Sym{model.S("a")}})
+				}
+				calls = append(calls, CallJ{Op: "value", Val: &one})
+				if open[len(open)-1] == "struct" {
+					calls = append(calls, CallJ{Op: "fieldname", Syms: []model.Sym{model.S("b")}})
+				}
+				calls = append(calls, CallJ{Op: "annotation", Syms: []model.Sym{model.S("x")}}, CallJ{Op: "value", Val: &one})
+				for d := depth - 1; d >= 0; d-- {
+					calls = append(calls, CallJ{Op: "end:" + open[d]})
+				}
+				calls = append(calls, CallJ{Op: "finish"})
+				for cfg := 0; cfg < 6; cfg++ {
+					if depth%7 != 3 && depth > 20 && cfg != 1 {
+						continue // beyond 20 every seventh depth only, the pretty writer at every depth
+					}
+					if !yield(C12Case{Config: cfg, Calls: calls}) {
+						return
+					}
+				}
+			}
+		}
+	})
 	RunProp(t, p)
 }
 
@@ -551,7 +593,7 @@ var _ = big.NewInt
 
 func init() {
 	Describe("C12",
-		"cases: (writer configuration in {text, pretty, binary growing table, binary fixed table, binary with three shared tables, text with three shared tables; the fixed table and the third shared table hold 300 filler symbols so that symbol IDs around 128 and 256 are used}, call sequence over the whole Writer interface with generated scalar arguments, 1-40 calls biased 75% towards protocol-legal next calls, always ending in Finish, sometimes twice). Plus exhaustive enumeration of every sequence up to length 5 (6 in the thorough tier) over a 9-call alphabet {WriteInt, WriteSymbol, FieldName, Annotation, BeginList, BeginStruct, EndList, EndStruct, Finish} x 6 configurations, each followed by a final Finish. Non-trivial: the sequence contains a refused call or an intermediate Finish, and at least one value call succeeded. Distinct by digest(configuration, calls).",
+		"cases: (writer configuration in {text, pretty, binary growing table, binary fixed table, binary with three shared tables, text with three shared tables; the fixed table and the third shared table hold 300 filler symbols so that symbol IDs around 128 and 256 are used}, call sequence over the whole Writer interface with generated scalar arguments, 1-40 calls biased 75% towards protocol-legal next calls, always ending in Finish, sometimes twice). Plus exhaustive enumeration of every sequence up to length 5 (6 in the thorough tier) over a 9-call alphabet {WriteInt, WriteSymbol, FieldName, Annotation, BeginList, BeginStruct, EndList, EndStruct, Finish} x 6 configurations, each followed by a final Finish; plus containers nested 1-70 deep (lists, sexps, structs, mixed) with a value and an annotated value at the bottom. Non-trivial: the sequence contains a refused call or an intermediate Finish, and at least one value call succeeded. Distinct by digest(configuration, calls).",
 		"oracle: (1) no panic; (2) after the first non-Finish error every later call errors; (3) if the final Finish returns nil the bytes decode under the strict reference decoder to exactly the values a reference protocol automaton builds from the calls that returned nil, and a nil-returning call the automaton cannot apply is itself a violation; (4) a second run on a fresh writer gives identical bytes and error pattern",
 		"sequences that abandon a pending field name or annotation (End*/Finish straight after FieldName/Annotation, FieldName twice, an invalid pending token) have no documented meaning: they are run for (1), (2), (4) and skipped for (3), counted under discarded.ambiguous_sequence",
 	)
